@@ -519,6 +519,10 @@ func (g *gctx) makeInner(kind string, witness bool) inner {
 		p1, p2 := g.pubForm(k1, allowUnc), g.pubForm(k2, allowUnc)
 		a := cat(push(p1), []byte{refscript.OP_CHECKSIGVERIFY, refscript.OP_CODESEPARATOR})
 		scr := cat(a, push(p2), []byte{refscript.OP_CHECKSIG})
+		viaMultisig := r.Chance(1, 3) // the second check as 1-of-1 CHECKMULTISIG: same script code rule, other opcode
+		if viaMultisig {
+			scr = cat(a, []byte{refscript.OP_1}, push(p2), []byte{refscript.OP_1, refscript.OP_CHECKMULTISIG})
+		}
 		return inner{kind, scr, func(sign func(*keyT, int) []byte) [][]byte {
 			from2 := len(a)
 			if g.m("codesep-ignored-by-signer") {
@@ -526,6 +530,9 @@ func (g *gctx) makeInner(kind string, witness bool) inner {
 			}
 			s2 := sign(k2, from2)
 			s1 := sign(k1, 0)
+			if viaMultisig {
+				return [][]byte{{}, s2, s1}
+			}
 			return [][]byte{s2, s1}
 		}}
 	case "cltv":
